@@ -2,7 +2,9 @@
 (* C06: two-field structs over 15 field types x tags {default, renamed, dotted,
    inline, ignore} x extreme values; types are WELL-FORMED (no two fields that
    resolve to the same or a prefix-related name: that is a separate, expected
-   duplicate error).                                                           *)
+   duplicate error).  Every fifth type again with its tags written under a custom
+   key and / or the StructTag option (tags that the option does not name are
+   ignored: every field is a plain setting under its lower-cased name).        *)
 EXTENDS UcfgPack, Layers, Json, SequencesExt
 
 Tags == {<<>>, <<"n">>, <<"p", "q">>}
@@ -42,22 +44,30 @@ NumCaseSeq == SetToSeq(NumCases)
 
 VARIABLES bk, cs
 vars == <<bk, cs>>
-Case(ty, val) ==
-  LET ideal == RoundTrip({}, ty, val)
-      alts  == {[devs |-> DS, out |-> RoundTrip(DS, ty, val)] : DS \in DevSets}
+\* tagkey: the key the type's tags are written under; structtag: the StructTag option ("" = not given)
+CaseT(ty, val, tagkey, structtag) ==
+  LET ety   == EffType(ty, tagkey, structtag)
+      ideal == RoundTrip({}, ety, val)
+      alts  == {[devs |-> DS, out |-> RoundTrip(DS, ety, val)] : DS \in DevSets}
       diff  == {x \in alts : x.out # ideal}
-  IN [ty |-> ty, val |-> val, tree |-> Pack(ty, val), exp |-> [ideal |-> ideal, alts |-> SetToSeq(diff)]]
+  IN [ty |-> ty, val |-> val, tagkey |-> tagkey, structtag |-> structtag, tree |-> Pack(ety, val), exp |-> [ideal |-> ideal, alts |-> SetToSeq(diff)]]
+Case(ty, val) == CaseT(ty, val, "config", "")
+\* the custom tag honoured, the default tags ignored under the option, the custom tags ignored without it
+TagCombos == {<<"cfg", "cfg">>, <<"config", "cfg">>, <<"cfg", "">>}
 Init == bk \in 0..63 /\ cs = <<>>
 Next == /\ cs = <<>> /\ UNCHANGED bk
         /\ \/ \E i \in {j \in 1..Len(TypeSeq) : j % 64 = bk} : \E val \in Vals(TypeSeq[i]) :
                  cs' = <<i, val>> /\ PrintT(ToJson(Case(TypeSeq[i], val)))
+           \/ \E i \in {j \in 1..Len(TypeSeq) : j % 64 = bk /\ j % 5 = 0} : \E val \in Vals(TypeSeq[i]), tc \in TagCombos :
+                 cs' = <<i, val, tc>> /\ PrintT(ToJson(CaseT(TypeSeq[i], val, tc[1], tc[2])))
            \/ \E i \in {j \in 1..Len(NumCaseSeq) : j % 64 = bk} :
                  cs' = <<0, i>> /\ PrintT(ToJson(Case(NumCaseSeq[i][1], NumCaseSeq[i][2])))
 View == <<bk, cs = <<>> >>
 \* C06 at the model level: the round trip is the identity on the Ideal layer
 CsTy  == IF cs[1] = 0 THEN NumCaseSeq[cs[2]][1] ELSE TypeSeq[cs[1]]
 CsVal == IF cs[1] = 0 THEN NumCaseSeq[cs[2]][2] ELSE cs[2]
-Identity == cs # <<>> => RoundTrip({}, CsTy, CsVal) = [ok |-> CsVal]
+CsETy == IF Len(cs) = 3 THEN EffType(CsTy, cs[3][1], cs[3][2]) ELSE CsTy
+Identity == cs # <<>> => RoundTrip({}, CsETy, CsVal) = [ok |-> CsVal]
 \* ... and the packed tree never is a duplicate-key error for a well-formed type
-PackOK == cs # <<>> => ~IsErr(Pack(CsTy, CsVal))
+PackOK == cs # <<>> => ~IsErr(Pack(CsETy, CsVal))
 ==========================================================================
